@@ -329,6 +329,16 @@ class AstInfo:
                 )
                 if child_lineno not in self.module.no_cover_lines
             )
+            # A parent is in `only_cover_lines`, e.g., the class of a method
+            or any(
+                scope_line_range(definition_node)[0] in self.module.only_cover_lines
+                for definition_node in nodes_of_class(
+                    self.module.module_ast, (ast.FunctionDef, ast.AsyncFunctionDef, ast.ClassDef)
+                )
+                if scope_line_range(definition_node)[0]
+                <= lineno
+                <= scope_line_range(definition_node)[1]
+            )
         )
 
     @staticmethod
